@@ -466,13 +466,14 @@ theorem createSubscriptionForPlan_count {s : State} {acc : Addr} {planId : Nat} 
   unfold createSubscriptionForPlan at h
   simp only [bind_eq_ok, pure_eq_ok, require_eq_ok, requireP_eq_ok, orReject_eq_ok] at h
   obtain ⟨plan, hplan, _, _, price, _, reward, _, s1, h1, payAmt, _, _, _, s2, h2, granted, _, rfl⟩ := h
-  have f2 : MFrame s (emit s2 _) := ((sendCoinFromAccountToModule_mframe h1).trans (sendCoin_mframe h2)).trans (MFrame.emit _ _)
+  have f2 : MFrame s s2 := (sendCoinFromAccountToModule_mframe h1).trans (sendCoin_mframe h2)
   have i2 := CountInv.of_mframe f2 hi
   have e2 := subCount_of_mframe f2
-  refine emit_count _ (setAllocation_count ?_ ?_ (insertSub_count ?_ i2))
+  refine emit_count _ (setAllocation_count ?_ ?_ (insertSub_count ?_ (emit_count _ i2)))
   · simp only; omega
   · rw [insertSub_subCount]; simp
-  · rw [e2]
+  · show s2.subCount.getD 0 + 1 = _
+    rw [e2]
 
 theorem planSubscribe_count {s s' : State} {frm : Addr} {id : Nat} {denom : Denom}
     (h : planSubscribe s frm id denom = .ok s') (hi : CountInv s) : CountInv s' := by
@@ -540,5 +541,88 @@ theorem planUnlink_count {s s' : State} {frm : Addr} {id : Nat} {node : Addr}
   constructor
   case nodeForPlan => exact hi.nodeForPlan.erase
   count_rest hi
+
+/-! ### subscription and session messages -/
+
+theorem subscriptionInactivePendingHook_subCount {s s' : State} {id : Nat}
+    (h : subscriptionInactivePendingHook s id = .ok s') : s'.subCount = s.subCount := by
+  unfold subscriptionInactivePendingHook at h
+  refine foldlM_inv (fun t => t.subCount = s.subCount) _ ?_ _ s s' h rfl
+  intro s0 sid s1 h1 hp
+  simp only [bind_eq_ok, pure_eq_ok, orPanic_eq_ok] at h1
+  obtain ⟨x, hx, rfl⟩ := h1
+  split
+  · exact hp
+  · exact hp
+
+theorem subCancel_count {s s' : State} {frm : Addr} {id : Nat} (h : subCancel s frm id = .ok s') (hi : CountInv s) :
+    CountInv s' := by
+  unfold subCancel at h
+  simp only [bind_eq_ok, require_eq_ok, orReject_eq_ok] at h
+  obtain ⟨sub, hsub, _, _, _, _, s1, h1, h2⟩ := h
+  have i0 : CountInv { s with subQ := s.subQ.erase (sub.inactiveAt, sub.id) } := by
+    rw [countInv_iff] at hi ⊢
+    constructor
+    case subQ => exact hi.subQ.erase
+    count_rest hi
+  have i1 := subscriptionInactivePendingHook_count h1 i0
+  have e1 : s1.subCount = s.subCount := (subscriptionInactivePendingHook_subCount h1).trans rfl
+  have hs : SubP (s1.subCount.getD 0) sub.id sub := by rw [e1]; exact subP_of_get hi hsub
+  exact detachPayout_count h2 (subToPending_count hs i1)
+
+theorem subAllocate_count {s s' : State} {frm toA : Addr} {id : Nat} {bytes : Int}
+    (h : subAllocate s frm id toA bytes = .ok s') (hi : CountInv s) : CountInv s' := by
+  unfold subAllocate at h
+  simp only [bind_eq_ok, pure_eq_ok, require_eq_ok, orReject_eq_ok] at h
+  obtain ⟨sub, hsub, _, _, _, _, fa, hfa, _, _, g, _, u, _, av, _, _, _, fg, _, _, _, _, _, rfl⟩ := h
+  have hs := hi.subs id sub hsub
+  have hf := hi.allocs id frm fa hfa
+  have ht : ((s.allocs.get (id, toA)).getD { id := id, addr := toA, granted := 0, used := 0 }).id = id := by
+    cases hg : s.allocs.get (id, toA) with
+    | none => rfl
+    | some ta => exact (hi.allocs id toA ta hg).1
+  have i1 : CountInv (if (s.allocs.get (id, toA)).isNone then { s with subForAcc := s.subForAcc.set (toA, id) () } else s) := by
+    split
+    · rw [countInv_iff] at hi ⊢
+      constructor
+      case subForAcc => exact hi.subForAcc.set hs.2.2
+      count_rest hi
+    · exact hi
+  have e1 : (if (s.allocs.get (id, toA)).isNone then { s with subForAcc := s.subForAcc.set (toA, id) () } else s).subCount = s.subCount := by
+    split <;> rfl
+  refine emit_count _ (setAllocation_count ?_ ?_ (emit_count _ (setAllocation_count ?_ ?_ i1)))
+  · simp only [ht]; exact hs.2.1
+  · simp only [ht]; show id ≤ Option.getD (State.subCount (ite _ _ _)) 0; rw [e1]; exact hs.2.2
+  · simp only [hf.1]; exact hs.2.1
+  · simp only [hf.1]; rw [e1]; exact hs.2.2
+
+theorem sessStart_count {s s' : State} {frm : TextAddr} {id : Nat} {node : Addr}
+    (h : sessStart s frm id node = .ok s') (hi : CountInv s) : CountInv s' := by
+  unfold sessStart at h
+  simp only [bind_eq_ok, pure_eq_ok, require_eq_ok, orReject_eq_ok] at h
+  obtain ⟨sub, hsub, _, _, n, _, _, _, _, _, _, _, latest, _, _, _, rfl⟩ := h
+  have hs := hi.subs id sub hsub
+  exact emit_count _ (insertSession_count rfl hs.2.1 hs.2.2 hi)
+
+theorem sessUpdate_count {s s' : State} {frm : Addr} {id : Nat} {up down dur : Int} {sig : SigSpec}
+    (h : sessUpdate s frm id up down dur sig = .ok s') (hi : CountInv s) : CountInv s' := by
+  unfold sessUpdate at h
+  simp only [bind_eq_ok, pure_eq_ok, require_eq_ok, orReject_eq_ok] at h
+  obtain ⟨x, hx, _, _, _, _, _, _, rfl⟩ := h
+  have hp := sessP_of_get hi hx
+  refine emit_count _ ?_
+  rw [countInv_iff] at hi ⊢
+  split <;>
+  · constructor
+    case sessions => exact hi.sessions.set ⟨rfl, hp.2.1, hp.2.2.1, hp.2.2.2.1, hp.2.2.2.2⟩
+    case sessQ => first | exact hi.sessQ | exact hi.sessQ.erase.set hp.2.2.1
+    count_rest hi
+
+theorem sessEnd_count {s s' : State} {frm : Addr} {id : Nat} (h : sessEnd s frm id = .ok s') (hi : CountInv s) :
+    CountInv s' := by
+  unfold sessEnd at h
+  simp only [bind_eq_ok, pure_eq_ok, require_eq_ok, orReject_eq_ok] at h
+  obtain ⟨x, hx, _, _, _, _, rfl⟩ := h
+  exact sessionToPending_count (sessP_of_get hi hx) hi
 
 end Hub.Model
